@@ -42,6 +42,8 @@ class GlobalContext:
         self.logger: logging.Logger = logging.getLogger(LOGGER_PATH + "." + name)
         self.manager = manager
         self.auto_start: bool = False
+        # set once the context has been stopped (its file was unloaded or reloaded)
+        self.stopped: bool = False
         self.module: ModuleType | None = None
         self.rel_import_path: str = rel_import_path
         self.source: str = source
@@ -129,6 +131,7 @@ class GlobalContext:
         self.dms = set()
         self.dms_delay_start = set()
         self.set_auto_start(False)
+        self.stopped = True
 
     def get_name(self) -> str:
         """Return the global context name."""
